@@ -139,6 +139,11 @@ def count_theorems(pfile):
 def eval_case_file(outdir, name, timeout=1800):
     v = os.path.join(outdir, name + ".v")
     rc, log = sh(["coqc", "-Q", COQ, "Verif", "-o", os.path.join(outdir, name + ".vo"), v], cwd=outdir, timeout=timeout)
+    for ext in (".vo", ".glob", ".vok", ".vos"):
+        try:
+            os.remove(os.path.join(outdir, name + ext))
+        except OSError:
+            pass
     if rc != 0:
         return name, None, log
     m = re.search(r"M\s*=\s*(\[[^\]]*\])", log, re.S)
